@@ -33,6 +33,9 @@ NAMESPACE = "Rpyc.Props.C01"
 GEN = ["Netref.lean", "Brine.lean"]
 DRIVERS = ["drv_calls"]
 TRUSTED = [
+    "nesting is by construction in the model: a nested callback is a recursive call of the big-step evaluator; that the "
+    "real re-entrant serve() and the routing of replies by sequence number (C08's ledger) realise exactly this is not "
+    "proved as a refinement - it is tied to the code by the correspondence runs (depth <= 8 random, deeper in the corpus)",
     "modelled, not verified: sequence numbers / routing of replies to waiters are abstracted (C08's ledger), the "
     "proxy cache and reference counts are abstracted to tables that only grow (C10/C03), get_id_pack to an injective "
     "key; of an exception only class and args travel in the model (attributes, traceback text: C09); repr() of a "
@@ -41,6 +44,19 @@ TRUSTED = [
     "own call / try / raise behave as the model's local semantics says is CPython's",
 ]
 ASSUMPTIONS = [
+    "depth: every remote hop costs interpreter frames on both peers, so the real code reaches the interpreter's recursion "
+    "limit at a much smaller call depth than the same computation in one process (measured every run, see "
+    "observations_outside_the_property); the statement's 'any depth' is the model's, the code's is bounded by that limit",
+    "sync_request_timeout (30 s by default) is not in the model: a nested call that outlasts it raises at the caller "
+    "while the callee still runs once; the deterministic network's virtual clock never lets it fire",
+    "handlers cannot bind the caught exception (no `except ... as e` in the language): 'caught at another level' is "
+    "observed as the branch taken and as what the handler then computes",
+    "exception classes: the model rebuilds every class as itself, which is the code's behaviour for built-in classes "
+    "under any configuration and for user classes under instantiate_custom_exceptions (set for the distributed runs; "
+    "one run in five of programs raising built-in classes only uses the default configuration instead); the default "
+    "configuration's stand-in for user classes is C09's and is recorded as an observation",
+    "recursion: the language has no conditional, so a cyclic call graph terminates only through an exception (argument "
+    "exhaustion -> IndexError); the theorem covers every program, the correspondence has corpus programs with cycles",
     "values inside brine's domain (C04: ints the interpreter can render, lengths < 2**32); programs holding an "
     "over-limit int are compared model-vs-code by outcome class only and are outside the oracle",
     "built-in exception classes (a class the receiver does not know arrives as a generic stand-in: C09), no subclass "
@@ -664,8 +680,9 @@ def run_local(world):
     return out, list(world.counts), raw, dict(world.stats)
 
 
-def run_dist(world):
-    """the program on the two ends of one real connection over the deterministic network"""
+def run_dist(world, custom_exceptions=True):
+    """the program on the two ends of one real connection over the deterministic network; `custom_exceptions=False`: the
+    default configuration's treatment of exception classes (only for programs that raise built-in classes)"""
     import rpyc
     from simnet import Net
     world.reset(True)
@@ -686,7 +703,7 @@ def run_dist(world):
     with net.installed():
         # public attributes readable: the observation `x.probe` of a by-reference argument is an attribute read
         # custom exception classes (asyncio's CancelledError, Boom) are rebuilt as themselves: the modules are imported
-        cfg = dict(allow_public_attrs=True, instantiate_custom_exceptions=True)
+        cfg = dict(allow_public_attrs=True, instantiate_custom_exceptions=bool(custom_exceptions))
         ca, cb = net.connect_pair(None, SideB(), dict(cfg), dict(cfg))
         # watch both tables: a LOCAL_REF that does not resolve although the peer still holds (or has just sent) a
         # reference is the signature of a known finding (see KNOWN_RELEASE_RACE)
@@ -1103,6 +1120,15 @@ def boundary_programs():
     fns = [dict(owner="A", body=[("call", 0, V(R_("B", 1)), [V(R_("A", 2))], [("nt", V(R_("A", 3)))]), ("raise", "ValueError", [("v", 0), V(R_("A", 4))])]),
            dict(owner="B", body=[("ret", ("t", [("k", "nt"), ("a", 0)]))])]
     out.append(dict(fns=fns, data=["A:tuple-subclass", "A:namedtuple", "A:str-subclass"], entry=dict(callee=R_("A", 0), args=[], kwargs=[])))
+    # a cyclic call graph f0 -> f1 -> f2 -> f0 ... across the connection: the language has no conditional, a recursion ends
+    # when an argument runs out (IndexError, caught one level up); f0 runs at two depths
+    fns = [dict(owner="A", body=[("try", [("call", 0, V(R_("B", 1)), [("a", 1), ("a", 2), ("a", 3), ("a", 4), ("a", 5), ("a", 6)], [])], "IndexError", [("ret", ("t", [V("bottom at f0"), ("a", 0)]))]),
+                                 ("ret", ("t", [("v", 0), ("a", 0)]))]),
+           dict(owner="B", body=[("try", [("call", 0, V(R_("A", 2)), [("a", 1), ("a", 2), ("a", 3), ("a", 4), ("a", 5)], [])], "IndexError", [("ret", ("t", [V("bottom at f1"), ("a", 0)]))]),
+                                 ("ret", ("t", [("v", 0), ("a", 0)]))]),
+           dict(owner="A", body=[("try", [("call", 0, V(R_("A", 0)), [("a", 1), ("a", 2), ("a", 3), ("a", 4)], [])], "IndexError", [("ret", ("t", [V("bottom at f2"), ("a", 0)]))]),
+                                 ("ret", ("t", [("v", 0), ("a", 0)]))])]
+    out.append(dict(fns=fns, data=[], entry=dict(callee=R_("A", 0), args=[0, 1, 2, 3, 4, 5, 6], kwargs=[])))
     # keyword names that a proxy's own methods might have taken for themselves: `self`, `_self`, `args`, `kwargs`
     fns = [dict(owner="A", body=[("call", 0, V(R_("B", 1)), [V(0)], [("_self", V(1)), ("self", V(2)), ("args", V(3)), ("kwargs", V(R_("A", 2)))]), ("ret", ("v", 0))]),
            dict(owner="B", body=[("ret", ("t", [("k", "_self"), ("k", "self"), ("k", "args"), ("k", "kwargs"), ("a", 0)]))])]
@@ -1153,7 +1179,21 @@ class CaseResult(object):
     pass
 
 
-def run_case(prog):
+CUSTOM_CLASS_NAMES = ("CancelledError", "Boom")
+
+
+def raises_custom_class(prog):
+    def in_block(b):
+        for st in b:
+            if st[0] == "raise" and st[1] in CUSTOM_CLASS_NAMES:
+                return True
+            if st[0] == "try" and (in_block(st[1]) or in_block(st[3])):
+                return True
+        return False
+    return any(in_block(f["body"]) for f in prog["fns"])
+
+
+def run_case(prog, custom_exceptions=True):
     """implementation runs of one program; None if it is over the invocation budget"""
     world = World(prog)
     try:
@@ -1165,7 +1205,7 @@ def run_case(prog):
     res.local = (lo, lc)
     res.local_raw = lraw
     try:
-        do, dc, draw, dstats, info = run_dist(world)
+        do, dc, draw, dstats, info = run_dist(world, custom_exceptions)
     except (Budget, RecursionError):
         return None
     res.dist = (do, dc)
@@ -1183,6 +1223,49 @@ def run_case(prog):
             reprs.append((world.text(a), norm_arg(a)))
     res.reprs = reprs
     return res
+
+
+def outside_observations():
+    """measured every run, judged by nobody: what lies outside the statement as the model states it"""
+    out = {}
+    V = lambda v: ("c", v)
+    # (1) the default configuration does not rebuild a user exception class: it arrives as a stand-in named after it,
+    # which `except Boom` does not catch and `except Exception` does (C09's custom-class gate)
+    fns = [dict(owner="A", body=[("try", [("call", 0, V(Ref("B", 1)), [], [])], "Boom", [("ret", V("except Boom fired"))])]),
+           dict(owner="B", body=[("raise", "Boom", [V(1)])])]
+    prog = dict(fns=fns, data=[], entry=dict(callee=Ref("A", 0), args=[], kwargs=[]))
+    try:
+        res = run_case(prog, custom_exceptions=False)
+        out["Boom raised remotely under the default configuration (instantiate_custom_exceptions off), caller has `except Boom`"] = \
+            "distributed: %s; one process: %s" % (res.dist[0][:80], res.local[0][:80])
+    except Exception as ex:  # noqa
+        out["default-configuration probe"] = "could not run: %s" % type(ex).__name__
+    # (2) every remote hop costs interpreter frames on both sides: a ping-pong deep enough exhausts the recursion limit
+    # in the distributed run long before the one-process run
+    import sys as _sys
+    for depth in (60, 200, 350):
+        fns = []
+        for d in range(depth):
+            fns.append(dict(owner="BA"[d % 2], body=[("call", 0, V(Ref("BA"[(d + 1) % 2], d + 1)), [], []), ("ret", ("v", 0))]))
+        fns.append(dict(owner="BA"[depth % 2], body=[("ret", V(depth))]))
+        world = World(dict(fns=fns, data=[], entry=dict(callee=Ref("B", 0), args=[], kwargs=[])))
+        global MAX_INVOCATIONS
+        saved, MAX_INVOCATIONS = MAX_INVOCATIONS, 10 ** 6
+        try:
+            try:
+                lo = run_local(world)[0][:40]
+            except RecursionError:
+                lo = "RecursionError in the harness"
+            try:
+                do = run_dist(world)[0][:40]
+            except RecursionError:
+                do = "RecursionError in the harness"
+        finally:
+            MAX_INVOCATIONS = saved
+        out["ping-pong of depth %d (recursion limit %d)" % (depth, _sys.getrecursionlimit())] = "distributed: %s; one process: %s" % (do, lo)
+        if not do.startswith("ret"):
+            break
+    return out
 
 
 def fmt(outcome, counts):
@@ -1264,10 +1347,12 @@ def correspondence(ctx):
         if len(progs) < 50 and made < n_rand:
             continue
         for prog in progs:
-            res = run_case(prog)
+            default_exc = not raises_custom_class(prog) and len(cases) % 5 == 0
+            res = run_case(prog, custom_exceptions=not default_exc)
             if res is None:
                 c.count("skipped:over-invocation-budget")
                 continue
+            c.count("exception-configuration:%s" % ("default (built-in classes only)" if default_exc else "instantiate_custom_exceptions"))
             cases.append((prog, res))
             lines += model_lines(prog, res.reprs)
         progs = []
@@ -1335,6 +1420,7 @@ def correspondence(ctx):
             c.samples.append(dict(functions=len(prog["fns"]), owners="".join(f["owner"] for f in prog["fns"]),
                                   outcome=fmt(*res.dist)[:200], remote_calls=st["remote_calls"], max_depth=st["max_depth"]))
     c.extra["programs"] = len(cases)
+    c.extra["observations_outside_the_property"] = outside_observations()
     c.extra["known_finding_hits"] = dict(known_hits)
     c.extra["by_reference_observation"] = (
         "arguments / results that are not exact instances of brine's types (namedtuple, tuple/str/int/bytes/float/"
